@@ -435,7 +435,7 @@ theorem openFile_spec (s : St) (n : FName) (now : Nat) (fl : Faults) :
   cases hs : s.cfg.symlink <;> cases hf : hit fl.openF 0 <;> simp
   all_goals intro h; simp [h]
 
-/-- `mountNext` once the infix is chosen: open, flush the old writer, switch -/
+/-- `mountNextCore` once the infix is chosen: open, flush the old writer, switch -/
 def mountTail (s : St) (a : Active) (ifx : Infix) (r : RotCfg) (now : Nat) (fl : Faults) :
     St × Active × Bool :=
   let n : FName := ⟨some ifx, false⟩
@@ -448,26 +448,26 @@ def mountTail (s : St) (a : Active) (ifx : Infix) (r : RotCfg) (now : Nat) (fl :
     let (d, cerr) := cleanup now s.cfg r fl s.dir
     ({ s with dir := d }, a, cerr)
 
-theorem mountNext_numbers (s : St) (a : Active) (r : RotCfg) (force : Bool) (now : Nat)
+theorem mountNextCore_numbers (s : St) (a : Active) (r : RotCfg) (force : Bool) (now : Nat)
     (fl : Faults) (hn : r.naming = .numbers)
     (h : (force || rotationNecessary r a now) = true) :
-    mountNext s a r force now fl =
+    mountNextCore s a r force now fl =
       if hit fl.renameF 0 then (s, a, true)
       else
         let p := s.dir.rename curN ⟨some (.num a.idx), false⟩
         let a1 := if p.2 && a.handle = curN then { a with handle := ⟨some (.num a.idx), false⟩ } else a
         mountTail { s with dir := p.1 } { a1 with idx := if p.2 then a1.idx + 1 else a1.idx }
           .cur r now fl := by
-  unfold mountNext mountTail
+  unfold mountNextCore mountTail
   simp only [h, hn, Bool.not_true, Bool.false_eq_true, if_false]
   cases hf : hit fl.renameF 0
   · simp only [Bool.false_eq_true, if_false]
   · simp only [if_true]
 
-theorem mountNext_timestamps (s : St) (a : Active) (r : RotCfg) (force : Bool) (now : Nat)
+theorem mountNextCore_timestamps (s : St) (a : Active) (r : RotCfg) (force : Bool) (now : Nat)
     (fl : Faults) (hn : r.naming = .timestamps)
     (h : (force || rotationNecessary r a now) = true) :
-    mountNext s a r force now fl =
+    mountNextCore s a r force now fl =
       if hit fl.renameF 0 then (s, a, true)
       else
         let t : FName := ⟨some (collisionFree s.dir a.stamp), false⟩
@@ -475,26 +475,26 @@ theorem mountNext_timestamps (s : St) (a : Active) (r : RotCfg) (force : Bool) (
         let a1 := if p.2 && a.handle = curN then { a with handle := t } else a
         mountTail { s with dir := p.1 } { a1 with stamp := createdOr p.1 curN now }
           .cur r now fl := by
-  unfold mountNext mountTail
+  unfold mountNextCore mountTail
   simp only [h, hn, Bool.not_true, Bool.false_eq_true, if_false]
   cases hf : hit fl.renameF 0
   · simp only [Bool.false_eq_true, if_false]
   · simp only [if_true]
 
-theorem mountNext_nD (s : St) (a : Active) (r : RotCfg) (force : Bool) (now : Nat)
+theorem mountNextCore_nD (s : St) (a : Active) (r : RotCfg) (force : Bool) (now : Nat)
     (fl : Faults) (hn : r.naming = .numbersDirect)
     (h : (force || rotationNecessary r a now) = true) :
-    mountNext s a r force now fl =
+    mountNextCore s a r force now fl =
       mountTail s { a with idx := a.idx + 1 } (.num (a.idx + 1)) r now fl := by
-  unfold mountNext mountTail
+  unfold mountNextCore mountTail
   simp only [h, hn, Bool.not_true, Bool.false_eq_true, if_false]
 
-theorem mountNext_tD (s : St) (a : Active) (r : RotCfg) (force : Bool) (now : Nat)
+theorem mountNextCore_tD (s : St) (a : Active) (r : RotCfg) (force : Bool) (now : Nat)
     (fl : Faults) (hn : r.naming = .timestampsDirect)
     (h : (force || rotationNecessary r a now) = true) :
-    mountNext s a r force now fl =
+    mountNextCore s a r force now fl =
       mountTail s { a with stamp := now } (collisionFree s.dir now) r now fl := by
-  unfold mountNext mountTail
+  unfold mountNextCore mountTail
   simp only [h, hn, Bool.not_true, Bool.false_eq_true, if_false]
 
 theorem mountTail_fail (s : St) (a : Active) (ifx : Infix) (r : RotCfg) (now : Nat) (fl : Faults)
@@ -827,23 +827,21 @@ theorem ioOk_direct {rot : Option RotCfg} {r : RotCfg} (hr : rot = some r)
     (hnm : renames r.naming = false) (fl : Faults) : ioOk rot fl = !(hit fl.openF 0) := by
   simp [ioOk, hr, hnm]
 
-/-- **Rotation under faults.** Whatever fails, the invariant is kept; the rotation has its
-    abstract effect iff it was due and both file-system calls succeeded; otherwise the abstract
-    state is unchanged and an error is returned. -/
-theorem mountNext_frel {cfg : Cfg} {r : RotCfg} (hr : cfg.rot = some r) (hcl : r.cleanup = none)
+/-- the rotation proper under faults -/
+theorem mountNextCore_frel {cfg : Cfg} {r : RotCfg} (hr : cfg.rot = some r) (hcl : r.cleanup = none)
     (s : St) (act : Active) (a : Abs) (force : Bool) (now lo : Nat) (fl : Faults)
     (hcfg : s.cfg = cfg) (hA : FAct cfg lo s.dir act a) (hlo : lo ≤ now) :
-    (mountNext s act r force now fl).1.cfg = cfg ∧
-    (mountNext s act r force now fl).1.errs = s.errs ∧
-    (mountNext s act r force now fl).2.2 =
+    (mountNextCore s act r force now fl).1.cfg = cfg ∧
+    (mountNextCore s act r force now fl).1.errs = s.errs ∧
+    (mountNextCore s act r force now fl).2.2 =
       ((force || absNecessary r a now) && !(ioOk cfg.rot fl)) ∧
-    FAct cfg now (mountNext s act r force now fl).1.dir (mountNext s act r force now fl).2.1
+    FAct cfg now (mountNextCore s act r force now fl).1.dir (mountNextCore s act r force now fl).2.1
       (if (force || absNecessary r a now) && ioOk cfg.rot fl then a.rotate now else a) := by
   obtain ⟨hsz, hcr⟩ := hA.size (by simp [hr])
   have hnec := FlwB.rotationNecessary_eq r act a now hsz hcr
   cases hdue : (force || absNecessary r a now) with
   | false =>
-    rw [FlwB.mountNext_skip s act r force now fl (by rw [hnec]; exact hdue)]
+    rw [FlwB.mountNextCore_skip s act r force now fl (by rw [hnec]; exact hdue)]
     simp only [Bool.false_and, Bool.false_eq_true, if_false]
     exact ⟨hcfg, trivial, trivial, hA.mono hlo⟩
   | true =>
@@ -852,7 +850,7 @@ theorem mountNext_frel {cfg : Cfg} {r : RotCfg} (hr : cfg.rot = some r) (hcl : r
     cases hn : r.naming with
     | numbers =>
       have hnm : renames r.naming = true := by rw [hn]; rfl
-      rw [mountNext_numbers s act r force now fl hn hdue', ioOk_renames hr hnm]
+      rw [mountNextCore_numbers s act r force now fl hn hdue', ioOk_renames hr hnm]
       cases hrf : hit fl.renameF 0 with
       | true =>
         simp only [if_true, Bool.not_true, Bool.and_false, Bool.not_false, Bool.false_eq_true,
@@ -868,7 +866,7 @@ theorem mountNext_frel {cfg : Cfg} {r : RotCfg} (hr : cfg.rot = some r) (hcl : r
         cases hof : hit fl.openF 0 <;> simp only [hof] at m4 ⊢ <;> exact m4
     | timestamps =>
       have hnm : renames r.naming = true := by rw [hn]; rfl
-      rw [mountNext_timestamps s act r force now fl hn hdue', ioOk_renames hr hnm]
+      rw [mountNextCore_timestamps s act r force now fl hn hdue', ioOk_renames hr hnm]
       cases hrf : hit fl.renameF 0 with
       | true =>
         simp only [if_true, Bool.not_true, Bool.and_false, Bool.not_false, Bool.false_eq_true,
@@ -884,7 +882,7 @@ theorem mountNext_frel {cfg : Cfg} {r : RotCfg} (hr : cfg.rot = some r) (hcl : r
         cases hof : hit fl.openF 0 <;> simp only [hof] at m4 ⊢ <;> exact m4
     | numbersDirect =>
       have hnm : renames r.naming = false := by rw [hn]; rfl
-      rw [mountNext_nD s act r force now fl hn hdue', ioOk_direct hr hnm]
+      rw [mountNextCore_nD s act r force now fl hn hdue', ioOk_direct hr hnm]
       obtain ⟨f, ns, hl, hd, hN⟩ := hA.last
       have hN0 := hN
       rw [nameInv_nD hr hn] at hN
@@ -913,7 +911,7 @@ theorem mountNext_frel {cfg : Cfg} {r : RotCfg} (hr : cfg.rot = some r) (hcl : r
       cases hof : hit fl.openF 0 <;> simp only [hof] at m4 ⊢ <;> exact m4
     | timestampsDirect =>
       have hnm : renames r.naming = false := by rw [hn]; rfl
-      rw [mountNext_tD s act r force now fl hn hdue', ioOk_direct hr hnm]
+      rw [mountNextCore_tD s act r force now fl hn hdue', ioOk_direct hr hnm]
       obtain ⟨f, ns, hl, hd, hN⟩ := hA.last
       rw [nameInv_tD hr hn] at hN
       obtain ⟨k, r0, hh, hk⟩ := hN
@@ -947,6 +945,34 @@ theorem mountNext_frel {cfg : Cfg} {r : RotCfg} (hr : cfg.rot = some r) (hcl : r
       simp only [Bool.not_not]
       refine ⟨m1, m2, m3, ?_⟩
       cases hof : hit fl.openF 0 <;> simp only [hof] at m4 ⊢ <;> exact m4
+
+/-- **Rotation under faults.** Whatever fails, the invariant is kept; the rotation has its
+    abstract effect iff it was due and both file-system calls succeeded; otherwise the abstract
+    state is unchanged (the `BufWriter` has been flushed into the descriptor's file, though) and
+    an error is returned. -/
+theorem mountNext_frel {cfg : Cfg} {r : RotCfg} (hr : cfg.rot = some r) (hcl : r.cleanup = none)
+    (s : St) (act : Active) (a : Abs) (force : Bool) (now lo : Nat) (fl : Faults)
+    (hcfg : s.cfg = cfg) (hA : FAct cfg lo s.dir act a) (hlo : lo ≤ now) :
+    (mountNext s act r force now fl).1.cfg = cfg ∧
+    (mountNext s act r force now fl).1.errs = s.errs ∧
+    (mountNext s act r force now fl).2.2 =
+      ((force || absNecessary r a now) && !(ioOk cfg.rot fl)) ∧
+    FAct cfg now (mountNext s act r force now fl).1.dir (mountNext s act r force now fl).2.1
+      (if (force || absNecessary r a now) && ioOk cfg.rot fl then a.rotate now else a) := by
+  obtain ⟨hsz, hcr⟩ := hA.size (by simp [hr])
+  have hnec := FlwB.rotationNecessary_eq r act a now hsz hcr
+  cases hdue : (force || absNecessary r a now) with
+  | false =>
+    rw [FlwB.mountNext_skip s act r force now fl (by rw [hnec]; exact hdue)]
+    simp only [Bool.false_and, Bool.false_eq_true, if_false]
+    exact ⟨hcfg, trivial, trivial, hA.mono hlo⟩
+  | true =>
+    rw [FlwB.mountNext_due s act r force now fl (by rw [hnec]; exact hdue)]
+    have := mountNextCore_frel hr hcl (flushAct s act).1 (flushAct s act).2 a true now lo fl hcfg
+      hA.flush hlo
+    have he : (flushAct s act).1.errs = s.errs := rfl
+    rw [he] at this
+    simpa using this
 
 /-! ### initialisation -/
 
